@@ -48,7 +48,10 @@ THOROUGH_LENGTHS = sorted(set(range(0, 131)) | set(QUICK_LENGTHS) | {1000, 4095,
 TEXT_EXTRA = [27, 28, 31, 32, 33]  # utf-16 formats: MD4/SHA-1 block edges counted in characters
 CRYPT_EDGE = [511, 512]  # libxcrypt's passphrase limit; the os_crypt backends must cope
 SMALL_LENGTHS = [0, 1, 8, 9, 17, 56, 97]
-USERS = ["", "a", "user", "User", "üser", "Administrator_of_the_whole_Example_Domain"]
+USERS = ["", "a", "user", "User", "üser", "Administrator_of_the_whole_Example_Domain",
+         # names on which lower(), casefold() and upper().lower() disagree (case folding of the account name is
+         # part of msdcc / msdcc2 / oracle10 / postgres_md5-style formats)
+         "Straße", "ΟΔΥΣΣΕΥΣ", "ſtaff", "ﬁle", "İstanbul", "ǅon"]
 REALMS = ["", "realm", "Réalm 2"]
 
 # formats whose reference is slow (bit-list DES / literal PBKDF2) or whose implementation is slow
@@ -404,6 +407,11 @@ def ctx_products(ax, full):
                     d["realm"] = r
                 if e is not None and "encoding" in c:
                     d["encoding"] = e
+                    try:
+                        (u or "").encode(e)
+                        (r or "").encode(e)
+                    except UnicodeEncodeError:
+                        continue  # not a name of that encoding: not an admissible context value
                 out.append(d)
     # the default encoding (keyword absent) is a value of the axis too
     if "encoding" in c and full:
